@@ -765,7 +765,7 @@ def import_smesh(file):
     if os.path.isfile(file):
         imported_elements.append(exch.import_surf_mesh(file))
     elif os.path.isdir(file):
-        files = sorted([os.path.join(file, f) for f in os.listdir(file)])
+        files = [os.path.join(file, f) for f in sorted(os.listdir(file), key=exch.natural_sort_key)]
         for f in files:
             imported_elements.append(exch.import_surf_mesh(f))
     else:
@@ -836,7 +836,7 @@ def import_vmesh(file):
     if os.path.isfile(file):
         imported_elements.append(exch.import_vol_mesh(file))
     elif os.path.isdir(file):
-        files = sorted([os.path.join(file, f) for f in os.listdir(file)])
+        files = [os.path.join(file, f) for f in sorted(os.listdir(file), key=exch.natural_sort_key)]
         for f in files:
             imported_elements.append(exch.import_vol_mesh(f))
     else:
